@@ -3,7 +3,8 @@
    Layer 4 (Cython, gcc -O3 -ffast-math, libm, dlopen) is not a theorem: it is
    exercised by the oracle comparison of harness/props/c01.py.  C01 is PARTIAL. *)
 From Coq Require Import List Arith Bool Lia ZArith QArith.
-From Verif.C01 Require Import Model Proofs.
+From Verif.C06 Require Import Model.
+From Verif.C01 Require Import Model Proofs Kernel.
 Import ListNotations.
 Close Scope Q_scope. Open Scope nat_scope.
 
@@ -168,6 +169,92 @@ Theorem gauss_rule_weights : forall xw a b,
   Qeq (qsum (map snd xw)) (2 # 1) -> Qeq (qsum (map snd (gauss_interval xw a b))) (Qminus b a).
 Proof. exact gauss_weights_sum_l. Qed.
 Print Assumptions gauss_rule_weights.
+
+(* ---------------- layer 4, as far as the model carries it ------------------- *)
+(* The MODEL of the emitted kernel (coq/C01/Kernel.v: the assignments gen_assign emits for the kernel's
+   local variables in dependency order, reading and writing slots through the layout [lay], then
+   `r += code(e)` for every integrand expression, looped over the Gauss index range by entry_impl) computes
+   the Gauss sum of the value the C06 evaluator assigns to the scheduled forest (eval (eval_defs en ds) e):
+   for every field F with a monoid (F, 0, +), every injective layout, every well-formed schedule, any
+   number of axes.  The stores must agree with the environment on the variables computed BEFORE the kernel
+   (inputs, parameters, precomputed fields) -- hypothesis [Agree]; the jets/weights/builtins the kernel
+   sees are those of the environment -- hypothesis [Ctx]. *)
+Section Layer4.
+Variable F : Type.
+Variables (f0 : F) (fadd fmul fsub fdiv : F -> F -> F) (fopp : F -> F).
+Variable lay : String.string -> nat -> loc.
+Variable shp : String.string -> list nat.
+Variable sz : String.string -> nat.
+Hypothesis lay_inj : forall n k n' k', lay n k = lay n' k' -> n = n' /\ k = k'.
+Hypothesis add_0_l : forall x, fadd f0 x = x.
+Hypothesis add_0_r : forall x, fadd x f0 = x.
+Hypothesis add_assoc : forall x y z, fadd x (fadd y z) = fadd (fadd x y) z.
+
+(* at one Gauss node *)
+Theorem kernel_denotes_integrand : forall nc st en known ds es cs,
+  wf_prog F lay shp sz known ds -> Agree F lay shp sz st en known -> Ctx F nc en ->
+  omap (compile F lay shp) es = Some cs -> Forall (wfe F shp sz (names_after F known ds)) es ->
+  map (ceval F fadd fmul fsub fdiv fopp nc (run_defs F fadd fmul fsub fdiv fopp lay shp nc st ds)) cs
+  = map (eval F fadd fmul fsub fdiv fopp (eval_defs F f0 fadd fmul fsub fdiv fopp en ds)) es.
+Proof. exact (kernel_node_sound F f0 fadd fmul fsub fdiv fopp lay shp sz lay_inj). Qed.
+
+(* the `r += e1; r += e2; ...` statements add the sum of the expression values *)
+Theorem kernel_body_accumulates : forall nc st cs acc,
+  kernel_body F fadd fmul fsub fdiv fopp nc st cs acc
+  = fadd acc (sumF F f0 fadd (map (ceval F fadd fmul fsub fdiv fopp nc st) cs)).
+Proof. exact (kernel_body_as_add F f0 fadd fmul fsub fdiv fopp add_0_r add_assoc). Qed.
+
+(* the entry = Gauss sum over the joint support of the C06 value *)
+Theorem entry_denotes_gauss_sum :
+  forall (s1 s2 : list (nat * nat)) (nc : list nat -> nctx F) (st : list nat -> store F) (en : list nat -> env F)
+         known ds es cs,
+  wf_prog F lay shp sz known ds -> omap (compile F lay shp) es = Some cs ->
+  Forall (wfe F shp sz (names_after F known ds)) es ->
+  (forall idx, Agree F lay shp sz (st idx) (en idx) known /\ Ctx F (nc idx) (en idx)) ->
+  entry_impl F f0 fadd s1 s2
+    (fun idx => sumF F f0 fadd (map (ceval F fadd fmul fsub fdiv fopp (nc idx)
+                                      (run_defs F fadd fmul fsub fdiv fopp lay shp (nc idx) (st idx) ds)) cs))
+  = match entry_ranges s1 s2 with
+    | None => f0
+    | Some rs => sum_box F f0 fadd rs
+        (fun idx => sumF F f0 fadd (map (eval F fadd fmul fsub fdiv fopp
+                                           (eval_defs F f0 fadd fmul fsub fdiv fopp (en idx) ds)) es))
+    end.
+Proof. exact (entry_denotes_gauss_sum_l F f0 fadd fmul fsub fdiv fopp lay shp sz lay_inj add_0_l add_0_r add_assoc). Qed.
+
+(* ... = the sum over ALL Gauss nodes when the integrand's value vanishes outside either support *)
+Theorem entry_denotes_full_gauss_sum :
+  forall (s1 s2 : list (nat * nat)) Ns (nc : list nat -> nctx F) (st : list nat -> store F) (en : list nat -> env F)
+         known ds es cs,
+  wf_prog F lay shp sz known ds -> omap (compile F lay shp) es = Some cs ->
+  Forall (wfe F shp sz (names_after F known ds)) es ->
+  (forall idx, Agree F lay shp sz (st idx) (en idx) known /\ Ctx F (nc idx) (en idx)) ->
+  Forall2 (fun s N => snd s <= N) s1 Ns -> Forall2 (fun s N => snd s <= N) s2 Ns ->
+  (forall idx, in_box s1 idx = false \/ in_box s2 idx = false ->
+     sumF F f0 fadd (map (eval F fadd fmul fsub fdiv fopp (eval_defs F f0 fadd fmul fsub fdiv fopp (en idx) ds)) es) = f0) ->
+  entry_impl F f0 fadd s1 s2
+    (fun idx => sumF F f0 fadd (map (ceval F fadd fmul fsub fdiv fopp (nc idx)
+                                      (run_defs F fadd fmul fsub fdiv fopp lay shp (nc idx) (st idx) ds)) cs))
+  = sum_box F f0 fadd (full_box Ns)
+      (fun idx => sumF F f0 fadd (map (eval F fadd fmul fsub fdiv fopp
+                                         (eval_defs F f0 fadd fmul fsub fdiv fopp (en idx) ds)) es)).
+Proof. exact (entry_denotes_full_gauss_sum_l F f0 fadd fmul fsub fdiv fopp lay shp sz lay_inj add_0_l add_0_r add_assoc). Qed.
+End Layer4.
+Print Assumptions kernel_denotes_integrand.
+Print Assumptions kernel_body_accumulates.
+Print Assumptions entry_denotes_gauss_sum.
+Print Assumptions entry_denotes_full_gauss_sum.
+
+(* NOT PROVED within the model:
+     - the precompute_fields function: the same statement with the store threading of `fields`/`temp_fields`
+       written per node BEFORE the kernel runs; here it is the hypothesis [Agree] on the variables in [known]
+       (the program model run_defs covers it verbatim -- it is one more run_defs over the precomp list -- but
+       the two-phase statement with is_global classification is not stated);
+     - symmetric variables (one stored slot for (i,j) and (j,i)): [lay] is assumed injective on (variable, entry);
+       needs the user's promise that the defining matrix expression is symmetric;
+     - vector-valued kernels (r[k] += ...) are the componentwise instance, not stated separately;
+     - that the text printed by CodeGen is the concrete syntax of [cexpr]: tied by the slot-level comparison
+       (every var_ref slot = model slot, exact) and the statement-order check of harness/props/c01.py. *)
 
 (* NOT PROVED (layer 4, runtime only):
      forall well-formed form F, space, geometry, inputs:
